@@ -95,6 +95,7 @@ impl rustc_driver::Callbacks for Cb {
 		root.put("const_bodies", J::Arr(const_bodies));
 		root.put("adts", adts.finish(tcx));
 		root.put("impls", hirfacts::impl_facts(tcx));
+		root.put("traits", hirfacts::trait_facts(tcx));
 		root.put("hir", hirfacts::hir_facts(tcx));
 		root.put("consts", hirfacts::const_facts(tcx));
 
